@@ -451,7 +451,7 @@ func classifyPanic(r any) string {
 	switch v := r.(type) {
 	case nil:
 		return ""
-	case simrt.BudgetExceeded:
+	case simrt.BudgetExceeded, simrt.SelfDeadlock:
 		return "nontermination"
 	case *InjectedPanic, *injErr, injStruct:
 		return "injected"
